@@ -1,3 +1,191 @@
+/-
+C11 — generated markup cannot be broken out of by data.
+
+Generic theorems (any `.replace` chain satisfying decidable side conditions) and their
+instantiation on the chains re-extracted from the current source (`Generated/C11Tables.lean`)
+by `decide`.  Dropping `.replace('"', '&quot;')` from `_attribute_escape`, moving `&` later in
+a chain, or emitting a reference the decoder does not know breaks one of the `*_ok` theorems.
+-/
 import Flatland.C11
+import Flatland.Spec.C11
+import Proofs.Lemmas.C11Chain
+import Proofs.Lemmas.C11Decode
+import Proofs.Lemmas.C11Parse
 namespace Flatland.C11.Proofs
+open Flatland.C11 Flatland.Markup Flatland.Generated.C11
+
+/-! ### side conditions of the generic theorems, checked on the generated tables -/
+
+/-- a chain is safe inside a double-quoted attribute value and decodable -/
+def AttrChainOK (ch : Chain) : Bool :=
+  Good ch && Forbidden ch '"' && Forbidden ch '<' && Forbidden ch '>' &&
+  ch.all entOK && (keys ch).contains '&'
+
+/-- a chain is safe as element text and decodable -/
+def TextChainOK (ch : Chain) : Bool :=
+  Good ch && Forbidden ch '<' && ch.all entOK && (keys ch).contains '&'
+
+theorem attrChain_ok : AttrChainOK attrChain = true := by decide
+theorem textChain_ok : TextChainOK textChain = true := by decide
+theorem xChain_ok : TextChainOK xChain = true := by decide
+theorem xaChain_ok : AttrChainOK xaChain = true := by decide
+
+theorem attrOK_text {ch : Chain} (h : AttrChainOK ch = true) : TextChainOK ch = true := by
+  simp only [AttrChainOK, TextChainOK, Bool.and_eq_true] at *
+  obtain ⟨⟨⟨⟨⟨h1, _⟩, h3⟩, _⟩, h5⟩, h6⟩ := h
+  exact ⟨⟨⟨h1, h3⟩, h5⟩, h6⟩
+
+/-! ### no break-out -/
+
+/-- an attribute-safe chain never outputs `"`, `<` or `>` -/
+theorem no_breakout_attr (ch : Chain) (h : AttrChainOK ch = true) (s : Str) :
+    '"' ∉ escapeChain ch s ∧ '<' ∉ escapeChain ch s ∧ '>' ∉ escapeChain ch s := by
+  simp only [AttrChainOK, Bool.and_eq_true] at h
+  obtain ⟨⟨⟨⟨⟨hg, hq⟩, hl⟩, hr⟩, _⟩, _⟩ := h
+  exact ⟨forbidden_not_in_escape ch _ hg hq s, forbidden_not_in_escape ch _ hg hl s,
+         forbidden_not_in_escape ch _ hg hr s⟩
+
+/-- a text-safe chain never outputs `<` -/
+theorem no_breakout_text (ch : Chain) (h : TextChainOK ch = true) (s : Str) :
+    '<' ∉ escapeChain ch s := by
+  simp only [TextChainOK, Bool.and_eq_true] at h
+  exact forbidden_not_in_escape ch _ h.1.1.1 h.1.1.2 s
+
+/-- sequential `.replace` = simultaneous substitution (restated under the table condition) -/
+theorem chain_is_simultaneous (ch : Chain) (h : TextChainOK ch = true) (s : Str) :
+    escapeChain ch s = s.flatMap (substOf ch) := by
+  simp only [TextChainOK, Bool.and_eq_true] at h
+  exact chain_simultaneous ch h.1.1.1 s
+
+/-- decoding character references inverts the chain — for EVERY decoder that agrees with HTML
+    on the references the chain emits -/
+theorem decode_escape_any (ch : Chain) (dec : Str → Str) (h : TextChainOK ch = true)
+    (ok : DecoderOK ch dec) (s : Str) : dec (escapeChain ch s) = s := by
+  simp only [TextChainOK, Bool.and_eq_true] at h
+  exact decode_escape ch dec h.1.1.1 ok s
+
+/-- … in particular for the model's decoder -/
+theorem decodeRefs_escape (ch : Chain) (h : TextChainOK ch = true) (s : Str) :
+    decodeRefs (escapeChain ch s) = s := by
+  have h' := h
+  simp only [TextChainOK, Bool.and_eq_true] at h'
+  exact decode_escape_any ch decodeRefs h (decoderOK_of ch h'.1.2 h'.2) s
+
+/-! ### `.x` and `.xa` unescape to `.u` (Spec.SugarUnescapes) -/
+
+theorem x_unescapes (u : Str) : decodeRefs (sugar xChain u) = u :=
+  decodeRefs_escape xChain xChain_ok u
+
+theorem xa_unescapes (u : Str) : decodeRefs (sugar xaChain u) = u :=
+  decodeRefs_escape xaChain (attrOK_text xaChain_ok) u
+
+theorem xa_attribute_safe (u : Str) :
+    '"' ∉ sugar xaChain u ∧ '<' ∉ sugar xaChain u ∧ '>' ∉ sugar xaChain u :=
+  no_breakout_attr xaChain xaChain_ok u
+
+theorem x_text_safe (u : Str) : '<' ∉ sugar xChain u := no_breakout_text xChain xChain_ok u
+
+/-! ### parse ∘ render = id -/
+
+/-- the serialiser's output for data (plain-text attribute values, escaped text) -/
+def renderData (ch tch : Chain) (voids : List Str) (xml : Bool) (tag : Str)
+    (attrs : List (Str × Str)) (text : Str) : Except PyErr Str :=
+  renderTag ch voids xml tag (attrs.map (fun kv => (kv.1, Val.text kv.2))) (markupEscape tch text)
+
+/-- Generic: for an attribute-safe chain `ch`, a text-safe chain `tch`, a valid tag name, valid
+    attribute names and ARBITRARY attribute values and text, the serialiser succeeds and the parser
+    reads back exactly that tag, exactly those attributes with exactly those values (no extras),
+    and exactly that text (void elements: no text, by construction of `Tag.__call__`). -/
+theorem parse_render_generic (ch tch : Chain) (hch : AttrChainOK ch = true) (htch : TextChainOK tch = true)
+    (voids : List Str) (xml : Bool) (tag : Str) (attrs : List (Str × Str)) (text : Str)
+    (htag : validName tag = true) (hv : ∀ kv ∈ attrs, validName kv.1 = true) :
+    ∃ s, renderData ch tch voids xml tag attrs text = .ok s ∧
+      parseTag decodeRefs voids s =
+        some ⟨tag, attrs, if voids.contains tag then [] else text⟩ := by
+  have hq := (no_breakout_attr ch hch · |>.1)
+  have hdec := decodeRefs_escape ch (attrOK_text hch)
+  have hlt := no_breakout_text tch htch
+  have hdect := decodeRefs_escape tch htch
+  have htag' := htag
+  simp only [validName, Bool.and_eq_true, Bool.not_eq_true', List.isEmpty_eq_false_iff] at htag'
+  obtain ⟨htne, htall⟩ := htag'
+  have hname_ne : tag.isEmpty = false := by simpa using htne
+  -- generic reading of the start tag
+  have start : ∀ (closer : Str) (cl : Closer) (tail : Str),
+      (closer = ['>'] ∨ closer = [' ', '/', '>']) →
+      parseAttrs decodeRefs (closer ++ tail) = some ([], cl, tail) →
+      parseTag decodeRefs voids
+        ('<' :: tag ++ attrs.flatMap (attrText (escapeChain ch)) ++ closer ++ tail) =
+      (if cl = .selfClosed || voids.contains tag then
+        if tail.isEmpty then some ⟨tag, attrs, []⟩ else none
+      else
+        match splitAtChar '<' tail with
+        | some (text, tl) => if tl = '/' :: tag ++ ['>'] then some ⟨tag, attrs, decodeRefs text⟩ else none
+        | none => none) := by
+    intro closer cl tail hc hcl
+    obtain ⟨c, rest, hcr, hstop⟩ := after_name_stop (escapeChain ch) attrs closer tail hc
+    have hstr : '<' :: tag ++ attrs.flatMap (attrText (escapeChain ch)) ++ closer ++ tail =
+        '<' :: (tag ++ c :: rest) := by
+      simp only [List.cons_append, List.append_assoc, List.cons.injEq, true_and]
+      rw [← hcr]; simp
+    obtain ⟨h1, h2⟩ := takeWhile_name tag rest c htall hstop
+    rw [hstr]
+    simp only [parseTag, h1, h2, hname_ne, Bool.false_eq_true, ↓reduceIte]
+    rw [← hcr, parseAttrs_render decodeRefs (escapeChain ch) hq hdec attrs hv closer cl tail hcl]
+    rfl
+  unfold renderData renderTag
+  rw [renderOpen_text]
+  by_cases hvoid : voids.contains tag = true
+  · simp only [hvoid, ↓reduceIte]
+    cases xml with
+    | true =>
+      refine ⟨_, rfl, ?_⟩
+      have := start [' ', '/', '>'] .selfClosed [] (Or.inr rfl) (parseAttrs_selfclose _ _)
+      simp only [List.append_nil] at this
+      simp only [↓reduceIte]
+      rw [this]; simp
+    | false =>
+      refine ⟨_, rfl, ?_⟩
+      have := start ['>'] .opened [] (Or.inl rfl) (parseAttrs_close _ _)
+      simp only [List.append_nil] at this
+      simp only [Bool.false_eq_true, ↓reduceIte]
+      have hmem : tag ∈ voids := by simpa using hvoid
+      rw [this]; simp [hmem]
+  · simp only [hvoid, Bool.false_eq_true, ↓reduceIte]
+    refine ⟨_, rfl, ?_⟩
+    have := start ['>'] .opened (markupEscape tch text ++ '<' :: '/' :: tag ++ ['>']) (Or.inl rfl)
+      (parseAttrs_close _ _)
+    have e : '<' :: tag ++ attrs.flatMap (attrText (escapeChain ch)) ++
+        '>' :: markupEscape tch text ++ '<' :: '/' :: tag ++ ['>'] =
+        '<' :: tag ++ attrs.flatMap (attrText (escapeChain ch)) ++ ['>'] ++
+          (markupEscape tch text ++ '<' :: '/' :: tag ++ ['>']) := by simp
+    rw [e, this]
+    simp only [hvoid, Bool.or_false]
+    rw [markupEscape_eq]
+    have hs := splitAtChar_append (escapeChain tch text) ('/' :: tag ++ ['>']) (hlt text)
+    simp only [List.append_assoc, List.cons_append] at hs ⊢
+    simp [hs, hdect]
+
+/-- C11, markup part, on the tables of the current source: `Tag.__call__`'s serialisation of any
+    tag name / attribute names (identifiers) with ANY attribute values and ANY text parses back
+    to exactly one element with exactly those attributes and that text. -/
+theorem parse_render (xml : Bool) (tag : Str) (attrs : List (Str × Str)) (text : Str)
+    (htag : validName tag = true) (hv : ∀ kv ∈ attrs, validName kv.1 = true) :
+    ∃ s, renderData attrChain textChain voidElements xml tag attrs text = .ok s ∧
+      Spec.ParsesTo decodeRefs voidElements s tag attrs (if voidElements.contains tag then [] else text) :=
+  parse_render_generic attrChain textChain attrChain_ok textChain_ok voidElements xml tag attrs text htag hv
+
+/-! ### non-vacuity -/
+
+example : validName "input".toList = true := by decide
+example : validName "data-x".toList = true := by decide
+example : escapeChain attrChain "a\"<b>&".toList = "a&quot;&lt;b&gt;&amp;".toList := by decide
+example : substOf attrChain '"' = "&quot;".toList := by decide
+/-- a chain with `&` replaced last is rejected by the side condition … -/
+example : Good [('<', "&lt;".toList), ('&', "&amp;".toList)] = false := by decide
+/-- … and really is wrong -/
+example : escapeChain [('<', "&lt;".toList), ('&', "&amp;".toList)] ['<'] = "&amp;lt;".toList := by decide
+/-- a chain without the `"` entry is rejected -/
+example : AttrChainOK textChain = false := by decide
+
 end Flatland.C11.Proofs
